@@ -31,7 +31,7 @@ func BuildReport(resultPtr *rego.ResultSet, validationConfig c.ValidationConfigu
 	context := buildContext(len(results) == 0, reportConfig)
 	reportNode := ValidationReportNode(profileName, results, conforms, validationConfig, reportConfig)
 	instance := DialectInstance(&reportNode, &context)
-	return Encode(instance), nil
+	return encode(instance)
 }
 
 func buildResults(violations []any, warnings []any, infos []any) []any {
@@ -83,10 +83,17 @@ func buildContext(emptyReport bool, reportConfig c.ReportConfiguration) types.Ob
 }
 
 func Encode(data any) string {
+	encoded, _ := encode(data)
+	return encoded
+}
+
+func encode(data any) (string, error) {
 	var b bytes.Buffer
 	enc := json.NewEncoder(&b)
 	enc.SetIndent("", "  ")
 	enc.SetEscapeHTML(false)
-	enc.Encode(data)
-	return b.String()
+	if err := enc.Encode(data); err != nil {
+		return "", err
+	}
+	return b.String(), nil
 }
